@@ -55,8 +55,10 @@ def rx_render(r):
     return "(?:" + rx_render(r["a"]) + ")" + {"star": "*", "plus": "+", "opt": "?"}[k]
 
 
-RX_FNS = [("like", "regexp_like({s}, {p})"), ("instr", "regexp_instr({s}, {p})"), ("count", "regexp_count({s}, {p})"),
-          ("replace", "regexp_replace({s}, {p}, 'xy')")]
+# (spec function, SQL template, literal replacement text): a replacement without a backslash is literal text, also when it holds '$'
+RX_FNS = [("like", "regexp_like({s}, {p})", ""), ("instr", "regexp_instr({s}, {p})", ""), ("count", "regexp_count({s}, {p})", ""),
+          ("replace", "regexp_replace({s}, {p}, 'xy')", "xy"), ("replace", "regexp_replace({s}, {p}, '$0$1é')", "$0$1é"),
+          ("replace", "regexp_replace({s}, {p}, '')", "")]
 
 
 def regex_part(rep, tier, rng):
@@ -88,11 +90,11 @@ def regex_part(rep, tier, rng):
         plan = []
         for p in chunk:
             rx = rx_render(p)
-            for f, tmpl in RX_FNS:
+            for f, tmpl, rtxt in RX_FNS:
                 steps.append({"sql": "SELECT s, " + tmpl.format(s="s", p=sq(rx)) + " FROM strs"})
-                plan.append((p, f, "constant"))
+                plan.append((p, f, "constant", rtxt))
                 steps.append({"sql": "SELECT s, " + tmpl.format(s="s", p="p") + f" FROM strs CROSS JOIN (VALUES ({sq(rx)})) v(p)"})
-                plan.append((p, f, "column"))
+                plan.append((p, f, "column", rtxt))
         cases.append({"id": len(cases), "rt": {"kind": "threaded", "threads": 2}, "steps": steps, "timeout": 120, "_plan": plan, "_n0": n0})
     send = [{k: v for k, v in c.items() if not k.startswith("_")} for c in cases]
     res = vlib.Driver(nworkers=14, case_timeout=120).run(send)
@@ -105,16 +107,16 @@ def regex_part(rep, tier, rng):
                      [{"outcome": "abort" if (x or {}).get("abort") else "timeout", "msg": " || ".join(q for q in (x or {}).get("panic", []) if q)}] for x in rr]
         else:
             steps = r["steps"][c["_n0"]:]
-        for (p, f, ctx), st in zip(c["_plan"], steps):
+        for (p, f, ctx, rtxt), st in zip(c["_plan"], steps):
             o = st[-1]
             if o.get("outcome") == "rows":
                 for row in o["rows"]:
                     lid = len(lines)
-                    lines.append({"id": lid, "f": f, "r": p, "s": cps(row[0]), "rep": cps("xy"), "out": outrec(row[1], "fn")})
-                    meta[lid] = {"fn": "regexp_" + f, "ctx": ctx, "pattern": rx_render(p), "s": row[0]}
+                    lines.append({"id": lid, "f": f, "r": p, "s": cps(row[0]), "rep": cps(rtxt), "out": outrec(row[1], "fn")})
+                    meta[lid] = {"fn": "regexp_" + f, "ctx": ctx, "pattern": rx_render(p), "s": row[0], "replacement": rtxt}
             else:
                 lid = len(lines)
-                lines.append({"id": lid, "f": f, "r": p, "s": [], "rep": cps("xy"),
+                lines.append({"id": lid, "f": f, "r": p, "s": [], "rep": cps(rtxt),
                               "out": {"k": "err" if o.get("outcome") == "error" else o.get("outcome"), "v": []}})
                 meta[lid] = {"fn": "regexp_" + f, "ctx": ctx, "pattern": rx_render(p), "s": None, "msg": (o.get("msg") or "")[:200]}
     wd = vlib.workdir("C20-rx")
@@ -145,6 +147,51 @@ def regex_part(rep, tier, rng):
                              "of length <= 3 over {a, b, e-acute, newline} plus out-of-line variants, pattern as a constant and from a column; "
                              "judged by Regex.tla (leftmost-first backtracking order)")
     return len(lines)
+
+
+NULLFNS = [  # (spec name, SQL template over {s} {n} {p} {m}, which argument slots it uses)
+    ("lpad", "lpad({s}, {n}, {p})", "snp"), ("rpad", "rpad({s}, {n}, {p})", "snp"), ("substring", "substring({s}, {n}, {m})", "snm"),
+    ("replace", "replace({s}, {p}, 'x')", "sp"), ("left", "left({s}, {n})", "sn"), ("right", "right({s}, {n})", "sn"),
+    ("repeat", "repeat({s}, {n})", "sn"), ("strpos", "strpos({s}, {p})", "sp"), ("starts_with", "starts_with({s}, {p})", "sp"),
+    ("contains", "contains({s}, {p})", "sp"), ("concat_op", "{s} || {p}", "sp")]
+
+
+def null_lines(lines, meta, rng):
+    """NULL propagation of the 2- and 3-argument string functions with every mix of column and constant arguments:
+    a table holds every combination of {value, value, NULL} per argument; each argument is taken from its column or
+    replaced by a non-NULL constant."""
+    S, N, P, M = ["ab", "é𝄞x", None], [1, 3, None], ["*", "b", None], [2, None]
+    rows = [(s, n, p, m) for s in S for n in N for p in P for m in M]
+    vals = ", ".join("(" + ", ".join("NULL" if v is None else (sq(v) if isinstance(v, str) else str(v)) for v in r) + ")" for r in rows)
+    setup = [{"sql": "CREATE TEMP TABLE args (s TEXT, n INT, p TEXT, m INT)"}, {"sql": f"INSERT INTO args VALUES {vals}"}]
+    const = {"s": ("'ab'", "ab"), "n": ("2", 2), "p": ("'*'", "*"), "m": ("2", 2)}
+    steps, plan = list(setup), []
+    for f, tmpl, slots in NULLFNS:
+        for mask in range(1, 2 ** len(slots)):          # bit set = argument comes from the column; at least one column
+            use = {sl: bool(mask >> i & 1) for i, sl in enumerate(slots)}
+            args = {sl: (sl if use.get(sl) else const[sl][0]) for sl in "snpm"}
+            steps.append({"sql": "SELECT s, n, p, m, " + tmpl.format(**args) + " FROM args"})
+            plan.append((f, slots, use))
+    case = {"id": 0, "rt": {"kind": "threaded", "threads": 2}, "steps": steps, "timeout": 120}
+    res = vlib.Driver(nworkers=1, case_timeout=120).run([case])[0]
+    for k, (f, slots, use) in enumerate(plan):
+        st = res["steps"][len(setup) + k] if res and "steps" in res else [{"outcome": "abort" if (res or {}).get("abort") else "timeout"}]
+        o = st[-1]
+        got = o["rows"] if o.get("outcome") == "rows" else [None]
+        for row in got:
+            lid = len(lines)
+            if row is None:
+                lines.append({"id": lid, "kind": "fn", "s": [], "p": [], "f": f, "n": 0, "m": 0, "an": [],
+                              "out": {"k": "err" if o.get("outcome") == "error" else o.get("outcome"), "v": []}})
+                meta[lid] = {"fn": f, "sql": steps[len(setup) + k]["sql"], "ctx": "null-mix", "msg": (o.get("msg") or "")[:200]}
+                continue
+            a = {"s": row[0] if use.get("s") else const["s"][1], "n": row[1] if use.get("n") else const["n"][1],
+                 "p": row[2] if use.get("p") else const["p"][1], "m": row[3] if use.get("m") else const["m"][1]}
+            an = [1 if a[sl] is None else 0 for sl in slots]
+            lines.append({"id": lid, "kind": "fn", "s": cps(a["s"] or ""), "p": cps(a["p"] or ""), "f": f, "n": a["n"] or 0, "m": a["m"] or 0,
+                          "an": an, "out": outrec(row[4], "fn")})
+            meta[lid] = {"fn": f, "sql": steps[len(setup) + k]["sql"], "ctx": "null-mix:" + "".join(sl if use.get(sl) else "_" for sl in slots),
+                         "args": a, "msg": ""}
 
 
 def run(tier):
@@ -189,6 +236,9 @@ def run(tier):
     for s in S:
         for f in ("length", "reverse", "upper", "lower", "trim", "ltrim", "rtrim"):
             fns.append((f, s, "", 0, 0, f"{f}({sq(s)})"))
+        for n in (-30, -3, -2, -1):
+            fns.append(("left", s, "", n, 0, f"left({sq(s)}, {n})"))
+            fns.append(("right", s, "", n, 0, f"right({sq(s)}, {n})"))
         for n in (0, 1, 2, 3, 13, 30):
             fns.append(("left", s, "", n, 0, f"left({sq(s)}, {n})"))
             fns.append(("right", s, "", n, 0, f"right({sq(s)}, {n})"))
@@ -242,12 +292,12 @@ def run(tier):
                     for row in o["rows"]:
                         lid = len(lines)
                         lines.append({"id": lid, "kind": "like", "s": cps(row[0]) if isinstance(row[0], str) else [], "p": cps(p),
-                                      "f": "", "n": 0, "m": 0, "out": outrec(row[1], "like")})
+                                      "f": "", "n": 0, "m": 0, "an": [], "out": outrec(row[1], "like")})
                         meta[lid] = {"mode": c["_mode"], "s": row[0], "p": p}
                 else:
                     lid = len(lines)
                     k = "err" if o.get("outcome") == "error" else o.get("outcome")
-                    lines.append({"id": lid, "kind": "like", "s": [], "p": cps(p), "f": "", "n": 0, "m": 0, "out": {"k": k, "v": []}})
+                    lines.append({"id": lid, "kind": "like", "s": [], "p": cps(p), "f": "", "n": 0, "m": 0, "an": [], "out": {"k": k, "v": []}})
                     meta[lid] = {"mode": c["_mode"], "s": None, "p": p, "msg": o.get("msg", "")[:200]}
         else:
             for (f, s, t, n, m, sql), st in zip(c["_fns"], steps):
@@ -258,8 +308,9 @@ def run(tier):
                         out = outrec(o["rows"][0][idx], "fn")
                     else:
                         out = {"k": "err" if o.get("outcome") == "error" else o.get("outcome"), "v": []}
-                    lines.append({"id": lid, "kind": "fn", "s": cps(s), "p": cps(t), "f": f, "n": n, "m": m, "out": out})
+                    lines.append({"id": lid, "kind": "fn", "s": cps(s), "p": cps(t), "f": f, "n": n, "m": m, "an": [], "out": out})
                     meta[lid] = {"fn": f, "sql": sql, "ctx": ctx, "msg": o.get("msg", "")[:200]}
+    null_lines(lines, meta, rng)
     rep.cov["evaluations"] = len(lines) + regex_part(rep, tier, rng)
     wd = vlib.workdir("C20-tv")
     chunks = [lines[i:i + 15000] for i in range(0, len(lines), 15000)]
